@@ -18,8 +18,9 @@ def usable(dirs):
     """the budget works iff config and data sit under the same parent (settings name data files relative to config/..)"""
     for root in (CWD, CWD + '/tally'):
         if root + '/config' in dirs:
+            # the config directory tally finds must be the USER's (not a starter config that was lying in ./tally), next to the user's data
             data_needed = 'DATA' in dirs.values()
-            return (root + '/data' in dirs) or not data_needed
+            return dirs[root + '/config'] == 'CONFIG' and ((dirs.get(root + '/data') == 'DATA') or not data_needed)
     return False
 
 
@@ -53,6 +54,7 @@ def run(ctx, dirs, files, faults):
     sp.models['os.path.abspath'] = Func(lambda I_, a, k, n: a[0] if a[0].startswith('/') else CWD + '/' + a[0])
     sp.models['os.path.join'] = Func(lambda I_, a, k, n: '/'.join(a))
     sp.models['os.path.isdir'] = Func(lambda I_, a, k, n: a[0] in dirs)
+    sp.models['os.path.exists'] = Func(lambda I_, a, k, n: a[0] in dirs or a[0] in files)
     sp.models['sys.stdin.isatty'] = Func(lambda I_, a, k, n: True)
 
     def m_makedirs(I_, a, k, n):
@@ -66,6 +68,8 @@ def run(ctx, dirs, files, faults):
         maybe_fault('move(%s)' % src.replace(CWD + '/', ''))
         if src not in dirs:
             raise PyRaise('FileNotFoundError', (), 'move')
+        if dst in dirs:
+            dst = dst + '/' + src.rsplit('/', 1)[-1]          # shutil.move into an existing directory moves the source INSIDE it
         dirs[dst] = dirs.pop(src)
         for f in list(files):
             if f.startswith(src + '/'):
@@ -104,7 +108,14 @@ def h_layout(ctx):
     if has_out:
         dirs[CWD + '/output'] = 'OUTPUT'
     files = {CWD + '/config/settings.yaml': 'S0', CWD + '/config/merchants.rules': 'R0'}
-    before_contents = sorted(dirs.values())
+    # a ./tally/ that is already there with sub-directories of the same names (an earlier `tally init` before ./config existed)
+    existing = ctx.choose(3, 'existing_tally_dir')
+    if existing >= 1:
+        dirs[CWD + '/tally'] = 'NEW'
+        dirs[CWD + '/tally/config'] = 'STARTER_CONFIG'
+    if existing == 2:
+        dirs[CWD + '/tally/data'] = 'STARTER_DATA'
+    before_contents = sorted(v for v in dirs.values() if v != 'NEW')
     result, st = run(ctx, dirs, files, 'explore')
     point = st['boundaries'][-1] if st['boundaries'] else 'start'
     tag = ('crash_after[%s]' % point) if st['crashed'] else ('exit[%r%s]' % (result is not None, ',after_oserror@%s' % point if st['fault_used'] and result is None else ''))
